@@ -79,6 +79,120 @@ def c02(v, tier):
     return checks, len(plans)
 
 
+# ------------------------------------------------------------------ C08: ACK(k) followed at once by a stale ACK
+def ack_then_stale(addr, name, w, blksize, mode, family=socket.AF_INET, copies=1):
+    """Download in which every in-window ACK is followed back to back by a stale one (the previous ACK again).
+    mode 'early': ACK(first block of the window) the moment it arrives, while the rest of the window is still going out;
+    mode 'end': ACK(last block of the window) when the window is complete.
+    Returns (completed, rounds, bad) - bad = [(block, acked)] DATA at or below an acknowledged block that arrived after the
+    pass in flight at the time of the ACK had ended."""
+    s = N._sock(family, timeout=3.0)
+    tr = N.Transfer()
+    bad = []
+    rounds = 0
+    try:
+        s.sendto(N.enc_req(N.RRQ, name, options=[("windowsize", w), ("blksize", blksize), ("timeout", 1)]), addr)
+        k, f, peer = N.recv(s, tr)
+        if k != "OACK":
+            return None, 0, [], f"first reply {k}"
+        s.sendto(N.enc_ack(0), peer)
+        acked = 0          # absolute index of the last block acknowledged
+        pass_end = 0       # last block of the pass that was in flight when `acked` was sent
+        pass_done = True
+        final_abs = None
+        extra_copies = 0
+        high = 0           # highest in-order block held
+        while True:
+            k, f, src = N.recv(s, tr)
+            if k is None:
+                return False, rounds, bad, "silence for 3 s"
+            if k == "ERROR":
+                return False, rounds, bad, f"ERROR {f}"
+            if k != "DATA" or src != peer:
+                continue
+            abs_ = (high & ~0xFFFF) | f["blk"]
+            if abs_ + 32768 < high:
+                abs_ += 65536
+            if len(f["data"]) < blksize:
+                final_abs = abs_
+            if abs_ == high + 1:
+                high = abs_
+            if abs_ == acked and mode == "end" and extra_copies > 0:
+                extra_copies -= 1          # duplicate-packets mode: the remaining copies of the block just acknowledged
+            elif abs_ <= acked and pass_done:
+                bad.append((abs_, acked))
+                if len(bad) >= 3:
+                    s.sendto(N.enc_error(0, b"enough"), peer)
+                    return False, rounds, bad, "stopped after three retransmissions of acknowledged blocks"
+            if not pass_done and (abs_ >= pass_end or abs_ == final_abs):
+                pass_done = True
+            if final_abs is not None and high >= final_abs:
+                s.sendto(N.enc_ack(final_abs & 0xFFFF), peer)
+                return True, rounds, bad, ""
+            trigger = (mode == "early" and pass_done and abs_ == acked + 1 and high >= abs_) or \
+                      (mode == "end" and high >= acked + w and abs_ == acked + w)
+            if trigger:
+                new = acked + 1 if mode == "early" else acked + w
+                s.sendto(N.enc_ack(new & 0xFFFF), peer)
+                s.sendto(N.enc_ack(acked & 0xFFFF), peer)      # stale: outside the window that starts at acked+1
+                pass_end = acked + w
+                pass_done = mode == "end"
+                extra_copies = copies - 1
+                acked = new
+                rounds += 1
+    finally:
+        s.close()
+
+
+def c08(v, tier):
+    ctx = Ctx("C08", tier)
+    tftpd = ctx.bins["release"]["tftpd"]
+    evals = 0
+    info = {"ack_stale_pairs_sent": 0, "downloads": 0}
+    plans = []
+    for single in (True, False):
+        for dup in (None, 1):
+            sb = ctx.sandbox("c08")
+            write(os.path.join(sb["srv"], "early.bin"), N.keyed_content("c08-early", 64 * 13 + 5))     # 14 blocks of 64
+            write(os.path.join(sb["srv"], "end.bin"), N.keyed_content("c08-end", 64 * 8 * 40 + 9))     # 40 windows of 8
+            srv = N.Server(tftpd, sb["srv"], single=single, dup=dup, logdir=sb["logs"]).start()
+            plans.append((srv, "early.bin", 8, 64, "early"))
+            plans.append((srv, "end.bin", 8, 64, "end"))
+            if dup is None:
+                plans.append((srv, "end.bin", 64, 64, "early"))
+
+    def attempt(p):
+        srv, name, w, b, mode = p
+        return ack_then_stale(srv.addr, name, w, b, mode, family=srv.family, copies=2 if "--duplicate-packets" in srv.args else 1)
+
+    try:
+        for p in plans:
+            srv, name, w, b, mode = p
+            evals += 1
+            completed, rounds, bad, note = attempt(p)
+            info["ack_stale_pairs_sent"] += rounds
+            info["downloads"] += 1
+            cfg = f"{'single' if srv.single else 'multi'}-port{'/duplicate-packets 1' if '--duplicate-packets' in srv.args else ''}"
+            replay = {"engine": "net", "config": cfg, "file": name, "windowsize": w, "blksize": b, "ack_mode": mode, "retransmitted_acknowledged": bad[:8], "note": note}
+            if bad:
+                # acknowledged blocks came again: believed only if it repeats on two more serial attempts (a lost datagram
+                # on a loaded loopback is not a verdict)
+                again = [attempt(p) for _ in range(2)]
+                info["ack_stale_pairs_sent"] += sum(a[1] for a in again)
+                if all(a[2] for a in again):
+                    v.violation("C08/net/acked-block-retransmitted", f"{cfg}: ACK(k) immediately followed by a stale ACK ({mode}, windowsize {w}): blocks at or below k were sent again after k was acknowledged, e.g. block {bad[0][0]} after ACK({bad[0][1]}) (3 of 3 attempts)", replay)
+                else:
+                    v.note_inconclusive(f"{cfg}: one attempt saw an acknowledged block again, re-runs did not")
+            elif completed is None:
+                v.note_inconclusive(f"{cfg}: ack-then-stale download did not start: {note}")
+            elif not completed:
+                v.violation("C08/net/stale-ack-stalls", f"{cfg}: download with a stale ACK behind every ACK ({mode}, windowsize {w}) did not complete: {note}", replay)
+    finally:
+        for srv in {p[0] for p in plans}:
+            srv.stop()
+    return info, evals
+
+
 # ------------------------------------------------------------------ C13
 def c13_dup_wrq(v, ctx, tftpd, overwrite, pairs, T=1):
     """retransmitted WRQ for one name: finish on the most recently accepted worker, let the earlier one time out"""
@@ -753,4 +867,4 @@ def c15(v, tier):
     return {"net_wrap_transfers": evals}, evals
 
 
-EXT = {"C02": c02, "C13": c13, "C16": c16, "C07": c07, "C01": lambda v, t: c01_c04(v, t, "C01"), "C04": lambda v, t: c01_c04(v, t, "C04"), "C15": c15}
+EXT = {"C02": c02, "C08": c08, "C13": c13, "C16": c16, "C07": c07, "C01": lambda v, t: c01_c04(v, t, "C01"), "C04": lambda v, t: c01_c04(v, t, "C04"), "C15": c15}
